@@ -6,8 +6,9 @@
 
    Values are the STORED values: year = int16, month / day / weekday / index = uint8.
    Outcomes: [Ok v] normal return, [Contract] a TETL_PRECONDITION fired (the day / month
-   constructors reject values > 255), [UB SignedOverflow] an int / int32 operation overflowed,
-   [UB OutOfBounds] the lastDays[] table of detail::last_day_of_month was indexed outside 0..11. *)
+   constructors reject values > 255), [UB SignedOverflow] an int / int32 operation overflowed.
+   (No out-of-bounds outcome is left: since 5f4dacf detail::last_day_of_month no longer indexes its
+   table with a month outside 1..12.) *)
 From Tetl Require Import Lib.Base C11.Model.
 Local Open Scope Z_scope.
 
